@@ -27,7 +27,7 @@ def strategy(tier):
 def check(spec, ctx):
     today, svg, ts, S, tex, tt, T = C07.both(spec, ctx)
     info = tl.check_c07(spec, S, ts, "svg", today)
-    info_t = tl.check_c07(spec, T, tt, "tex", today)
+    info_t = tl.check_c07(spec, T, tt, "tex", today, svg_ticks=S["ticks"])
     tl.check_c08(spec, S, info)
     try:
         tl.check_c08(spec, T, info_t)
